@@ -48,7 +48,8 @@ def compare(a, b, use_ann=True):
             where = sorted({(json.loads(x)[0] or 0, json.loads(x)[2] or "") for x in only_a + only_b})
             detail = "only in baseline:\n%s\nonly in perturbed:\n%s" % (
                 "\n".join(_short(x) for x in only_a[:6]), "\n".join(_short(x) for x in only_b[:6]))
-            return {"level": "content", "where": [list(w) for w in where], "detail": detail}
+            heads = sorted({_head(x) for x in only_a + only_b})
+            return {"level": "content", "where": [list(w) for w in where], "detail": detail, "heads": heads}
         where = []
         for x, y in zip(da, db):
             if x != y:
@@ -69,6 +70,16 @@ def compare(a, b, use_ann=True):
         detail = "\n".join("%s:%s %s -> %s" % (r[0], r[1], r[2], r[3][:160]) for r in diff[:8])
         return {"level": "revealed", "where": where, "detail": detail}
     return None
+
+
+def _head(x):
+    j = json.loads(x)
+    msg = (j[3] or "").strip().split("\n")[0]
+    return "%s: %s" % (j[2], msg[:200])
+
+
+def diff_heads(d):
+    return d.get("heads") or []
 
 
 def _short(x):
@@ -121,9 +132,12 @@ def file_route_ok(code):
     return True
 
 
-def target_obs(events, pid):
+def target_obs(events, pid, index=None):
+    """Observation of pid at operation `index` (default: the last operation on pid)."""
     found = None
     for e in events:
+        if index is not None and e.get("i") != index:
+            continue
         if e.get("op") in ("check", "recheck") and e.get("pid") == pid:
             found = e.get("obs")
         elif e.get("op") == "files" and isinstance(e.get("obs"), dict):
